@@ -620,6 +620,9 @@ func (tr *Tr) allocBound(fr *Frame, pos token.Pos, bytes *Term) {
 	}
 	env := tr.envFor(top, nil, tr.entry)
 	env.fr = nil
+	for k, pv := range tr.topParams {
+		env.vars[k] = pv
+	}
 	v, err := env.Eval(top.contract.Alloc.Expr)
 	if err != nil {
 		tr.specError(*top.contract.Alloc, err)
